@@ -121,7 +121,23 @@ type c20ent struct {
 var c20names = []string{"a", "b", "d", "e", "g", "h", "..", ".", "", "missing", "xmissing", "d", "d", "kfail1", "rfail1", "ofail1", "iofail1", "kfaildir", "x/y"}
 
 func genWalkC20(r rnd) []string {
-	switch r.Intn(12) {
+	switch r.Intn(15) {
+	case 12:
+		return []string{[]string{"dappend", "dtmp", "dexcl"}[r.Intn(3)]}
+	case 13, 14:
+		// down the deep chain /p1/.../p20: 14-20 names, complete, or failing at a PRNG-chosen depth
+		k := 14 + r.Intn(7)
+		var out []string
+		for i := 1; i <= k; i++ {
+			out = append(out, fmt.Sprintf("p%d", i))
+		}
+		switch r.Intn(3) {
+		case 0:
+			out = append(out, "missing")
+		case 1:
+			out[len(out)-1-r.Intn(4)] = "missing"
+		}
+		return out
 	case 0:
 		return nil
 	case 1:
@@ -442,6 +458,11 @@ func runC20Seq(w *mon.W, seqNo int) {
 			if len(calls) == 0 {
 				if err == nil {
 					bad("create-no-call", "Create(%q) succeeded without a session call", name)
+					return
+				}
+				// only an unusable name or a non-directory entry may be refused without asking the server
+				if name != "" && name != "." && name != ".." && !strings.ContainsAny(name, "/\\") && e.ent.Qid().Type&p9p.QTDIR != 0 {
+					bad("create-not-issued", "Create(%q) on the directory entry e%d (qid type %#x) was refused locally (%v): no create was issued on the entry's fid", name, e.id, uint8(e.ent.Qid().Type), err)
 					return
 				}
 				continue
